@@ -16,7 +16,10 @@ Model of the output side of routee-compass (C20):
   whole response into `{"request": …, "error": …}`.
 
 Conventions.  Costs, state variables and coordinates are *opaque payloads*: they are carried as the bit
-patterns of the `f64` / `f32` values and never computed with.  The geometry table is `Nat → Option Line`
+patterns of the `f64` / `f32` values and never computed with.  `RouteOut.records` and `Feature.props` hold the
+traversals as they are handed to `serde`; how a payload then appears is `EdgeTraversal.rendered`: a finite value
+bit for bit, a NaN or an infinity as `null` (a search does not produce such costs — C07 — but the output formats
+accept any route).  The geometry table is `Nat → Option Line`
 (`geoms.get(edge_id.0)` on a boxed slice: `none` = row absent).  A tree is a
 `HashMap<VertexId, SearchTreeBranch>`; its iteration order is unspecified, so it is modelled as an
 association list and every tree output is produced in the order of that list — the theorems state the result
@@ -187,14 +190,22 @@ def leBytes : Nat → Nat → List Nat
   | 0, _ => []
   | k + 1, n => n % 256 :: leBytes k (n / 256)
 
-/-- `f32 as f64` (`Into<f64>`) on bit patterns: exact widening; zeros, subnormals and infinities included.
-NaN payloads are shifted like the hardware conversion of a quiet NaN (a coordinate read from a WKT table is never
-NaN: the parser rejects it). -/
+/-- `f32 as f64` (`Into<f64>`) on bit patterns: exact widening of zeros, subnormals, normal numbers and
+infinities; a NaN keeps sign and payload (shifted) and comes out *quiet* (bit 51 set), as the conversion
+instruction does — `0x7F800001` (signalling) widens to `0x7FF8000020000000`.
+Where non-finite coordinates can come from: since the repair of `parse_wkt_linestring` (it used to accept `+NaN`,
+`-inf`, `1e39`, …) a table read from a file holds finite coordinates only; a table handed to the output formats in
+memory (`generate_route_output(&route, &geoms)`) may hold anything.  For such a table only the WKB text is
+modelled; `wkt_string()` then prints `NaN` / `inf` (text the loader rejects) and the GeoJSON writer prints `null`,
+both outside this model. -/
 def widenF32 (b : Nat) : Nat :=
   let sign := (b / 2 ^ 31) % 2
   let e := (b / 2 ^ 23) % 256
   let m := b % 2 ^ 23
-  if e == 255 then sign * 2 ^ 63 + 2047 * 2 ^ 52 + m * 2 ^ 29
+  if e == 255 then
+    -- m = 0: infinity; otherwise NaN, quieted: m < 2²³, so m·2²⁹ has bit 51 set exactly when m ≥ 2²²
+    let frac := if m == 0 then 0 else if m < 2 ^ 22 then m * 2 ^ 29 + 2 ^ 51 else m * 2 ^ 29
+    sign * 2 ^ 63 + 2047 * 2 ^ 52 + frac
   else if e == 0 then
     if m == 0 then sign * 2 ^ 63
     else
@@ -308,6 +319,27 @@ def generateTreeOutput (g : Geoms) (fmt : Fmt) (t : Tree) : Except Err TreeOut :
     | .error x => .error x
     | .ok fs => .ok (.features fs)
   | .edgeId => .ok (.edgeIds (t.values.map (·.et.edge)))
+
+/-! ### how a payload appears in the JSON records and GeoJSON properties -/
+
+/-- an `f64` bit pattern denotes a finite number -/
+def f64IsFinite (bits : Nat) : Bool := (bits / 2 ^ 52) % 2048 != 2047
+
+/-- `serde_json::to_value` of a cost or state variable: a finite value becomes a JSON number that reads back to
+the same bits (negative zero and subnormals included); NaN and the infinities become `null` (`none`) -/
+def renderF64 (bits : Nat) : Option Nat := if f64IsFinite bits then some bits else none
+
+/-- an `EdgeTraversal` as the `json` records and the GeoJSON `properties` show it -/
+structure RenderedRecord where
+  edge : Nat
+  access : Option Nat
+  traversal : Option Nat
+  state : List (Option Nat)
+  deriving DecidableEq, Repr, Inhabited
+
+def EdgeTraversal.rendered (t : EdgeTraversal) : RenderedRecord :=
+  { edge := t.edge, access := renderF64 t.access, traversal := renderF64 t.traversal,
+    state := t.state.map renderF64 }
 
 /-! ### observations on outputs (used by the theorems and by the driver) -/
 
@@ -511,6 +543,10 @@ abbrev GeomRow := Option Line
 structure TableFile (α : Type) where
   /-- `File::open` succeeds -/
   readable : Bool
+  /-- `Path::is_file()` — what `get_config_path` of the builders tests.  A file can exist without opening (no
+  read permission): the builder then gets as far as `from_file`, whose `BuildFailed` it wraps as `PluginError`,
+  instead of reporting `FileNotFoundForComponent` -/
+  isFile : Bool := readable
   /-- the byte stream decodes to the end (a truncated gzip member does not) -/
   intact : Bool
   rows : List α
@@ -624,7 +660,7 @@ def filePath {α : Type} : FileParam α → Except BuildErr (TableFile α)
   | .notString => .error .fieldType
   | .noSuchFile => .error .fileNotFound
   -- `get_config_path` insists on `path.is_file()`
-  | .file f => if f.readable then .ok f else .error .fileNotFound
+  | .file f => if f.isFile then .ok f else .error .fileNotFound
 
 /-- `TraversalPluginBuilder::build`: file parameter, then `route`, then `tree`, then the load -/
 def buildTraversal (file : FileParam GeomRow) (route tree : Option Json) : Except BuildErr TraversalCfg :=
